@@ -83,8 +83,10 @@ def run(tier, seed, rng):
                     elif b[1][0] == 'leaf' and b[1][1][0] == 'int':
                         fd['body'] = b[:5] + ([rng.randrange(3) for _ in range(rng.randint(1, 2))],) + b[6:]
         G = pktcases.Group(table, gid)
+        G.local = (gid % 4 == 3)      # a quarter of the tables: classes declared inside a function (prototypes cloned from the live object)
         for c in sorted(table):
             G.add_extra(c, dict(op='default_pair', value=pktcases.jvalue(('pkt', c, {}))))
+            G.add_extra(c, dict(op='default_pair_each', value=pktcases.jvalue(('pkt', c, {}))))
         vg = gen.ValGen(rng, table)
         cs = sorted(table)
         for c in cs:
@@ -135,6 +137,25 @@ def run(tier, seed, rng):
         G.add_extra(3, dict(op='eq_interleaved', values=[pktcases.jvalue(('pkt', 3, {0: [mk(1, 5), mk(2, 6), mk(1, 7)]})),
                                                        pktcases.jvalue(('pkt', 3, {0: [mk(2, 8), mk(1, 9), mk(2, 8)]}))]))
         groups.append(G)
+    # ---- nesting two levels deep with mutable values at the bottom, classes reachable by name and declared inside a function: two
+    # default-built packets, one changed in place at the bottom
+    for variant in range(2):
+        dtable = {0: dict(end=None, align=None, sbl=None, gp=True, gu=True, vec=True, ann=True,
+                          fields=[{'move': None, 'body': ('elem', ('leaf', ('int', 1, False, None, 0)))}, {'move': None, 'body': ('elem', ('leaf', ('int', 2, False, None, 0)))}]),
+                  1: dict(end=None, align=None, sbl=None, gp=True, gu=True, vec=True, ann=True,
+                          fields=[{'move': None, 'body': ('elem', ('leaf', ('int', 1, False, None, 0)))}, {'move': None, 'body': ('elem', ('refpkt', 0, {}))},
+                                  {'move': None, 'body': ('seq', ('leaf', ('int', 1, False, None, 0)), (('lit', 2), 'const'), None, None, [1, 2], None)},
+                                  {'move': None, 'body': ('seq', ('refpkt', 0, {}), (('lit', 1), 'const'), None, None, [('pkt', 0, {})], None)}]),
+                  2: dict(end=None, align=None, sbl=None, gp=True, gu=True, vec=True, ann=True,
+                          fields=[{'move': None, 'body': ('elem', ('leaf', ('int', 1, False, None, 0)))}, {'move': None, 'body': ('elem', ('refpkt', 1, {}))}]),
+                  3: dict(end=None, align=None, sbl=None, gp=True, gu=True, vec=True, ann=True,
+                          fields=[{'move': None, 'body': ('elem', ('refpkt', 2, {}))}, {'move': None, 'body': ('elem', ('leaf', ('int', 1, False, None, 0)))}])}
+        G = pktcases.Group(dtable, 61000 + variant)
+        G.local = (variant == 1)
+        for c in sorted(dtable):
+            G.add_extra(c, dict(op='default_pair', value=pktcases.jvalue(('pkt', c, {}))))
+            G.add_extra(c, dict(op='default_pair_each', value=pktcases.jvalue(('pkt', c, {}))))
+        groups.append(G)
     # the 'eq' operation needs bytes: take the encoding of the value (pack through the implementation first)
     for G in groups:
         for op in G.ops:
@@ -153,6 +174,14 @@ def run(tier, seed, rng):
                 failures_early.append(dict(kind='oracle', sig='eq-default-pair', what=f"two default-constructed packets, one changed in place (lists grown, nested packets changed), still compare {o}",
                                            classes=pktprops.class_source(groups, r['group']), cls=decl.cname(r['c'])))
     dist['interleaved'] = 0
+    dist['single_places_changed'] = 0
+    for r in records:
+        if r['kind'] == 'extra:default_pair_each' and isinstance(r['outcome'], dict) and 'ok' in r['outcome']:
+            o = r['outcome']['ok']
+            dist['single_places_changed'] += o['places']
+            for path, kind, what in o['bad']:
+                failures.append(dict(kind='oracle', sig='eq-default-pair-one-place', what=f"two default-constructed packets, ONE value of one of them changed in place at {path} ({kind}): they still compare {what}",
+                                     classes=pktprops.class_source(groups, r['group']), cls=decl.cname(r['c'])))
     for r in records:
         if r['kind'] == 'extra:eq_interleaved' and isinstance(r['outcome'], dict) and 'ok' in r['outcome']:
             o = r['outcome']['ok']
